@@ -200,7 +200,10 @@ AUX_SETS = [("cache", ["--use-cache=true"], []), ("db", ["--checksum", "--checks
             ("cache+delete", ["--use-cache=true"], []), ("db+delete", ["--checksum", "--checksum-db=true"], ["--checksum"]), ("all", ["--use-cache=true", "--checksum", "--checksum-db=true"], ["--checksum"]),
             ("state", ["--resume=true"], ["--resume=false"]),
             # seed C18-4: the database of every later step still opens but its table cannot be queried (older schema, rows of the wrong type)
-            ("db-damaged", ["--checksum", "--checksum-db=true"], ["--checksum"])]
+            ("db-damaged", ["--checksum", "--checksum-db=true"], ["--checksum"]),
+            # (seed C18-3, masked in default mode by repair 80a4f7d) resume next to a content-comparing mode: a same-size edit within the
+            # planner's second is an update for --checksum, with or without a state file that lists the path
+            ("state-ck", ["--resume=true", "--checksum"], ["--resume=false", "--checksum"])]
 
 
 def still_same(src, dst, rel):
@@ -313,21 +316,21 @@ def run_history(sc, seed, i, known, stats):
     state = {}
     viol, hits, diffs, cases, obs = [], {}, [], [], []
     steps = r.randrange(3, 6)
-    use_delete = "delete" in name or (r.random() < 0.25 and name in ("cache", "resume", "state"))   # a --delete run removes its own database (KF1): plain db histories keep it
+    use_delete = "delete" in name or (r.random() < 0.25 and name in ("cache", "resume", "state", "state-ck"))   # a --delete run removes its own database (KF1): plain db histories keep it
     thr = r.choice([50, 100, 30])
     history = []
     for k in range(1, steps + 1):
         # database histories always contain an older same-size version put back (the lookup key must be exact)
         synced = [p for p in state if not p.startswith("\0") and os.path.isfile(os.path.join(db, p))]
-        if name == "state":
+        if name.startswith("state"):
             # the edit goes to a file the planted state file is going to list (the first five synced paths), non-empty when there is one
             listed = sorted(synced)[:5]
             synced = [p for p in listed if state[p][1] > 0] or listed
         history.append(edit_source(r, src, state, force=((["samesize_earlier", "samesize_subsecond", "samesize_ancient"][k % 3] if i % 2 == 0 else "samesize_ancient") if ("db" in name or name == "all") and k >= 2 else
-                                                         (r.choice(["samesize_later", "samesize_later", "samesize_earlier", "modsize"]) if name == "state" and k >= 2 else None)),
-                                   force_on=synced if name == "state" else None,
+                                                         ("samesize_subsecond" if name == "state-ck" and k >= 2 else ["samesize_earlier", "samesize_later", "modsize"][(k - 2) % 3] if name.startswith("state") and k >= 2 else None)),      # (seed C18-3: not left to chance)
+                                   force_on=synced if name.startswith("state") else None,
                                    # every other 'state' history is calm: a few files created once, then one edit per step to a listed file
-                                   only=((["create"] * 5 if k == 1 else []) if name == "state" and (i // len(AUX_SETS)) % 2 == 0 else None)))
+                                   only=((["create"] * 5 if k == 1 else []) if name.startswith("state") and (i // len(AUX_SETS)) % 2 == 0 else None)))
         fl = {"j": 1}
         if use_delete:
             fl.update({"delete": 1, "thr": thr})
@@ -355,7 +358,7 @@ def run_history(sc, seed, i, known, stats):
             if damage_sqlite(os.path.join(db, ".sy-checksums.db"), how):
                 dmg.append((".sy-checksums.db", how))
                 stats["db_structurally_damaged"] = stats.get("db_structurally_damaged", 0) + 1
-        if name == "state" and k >= 2:
+        if name.startswith("state") and k >= 2:
             # a VALID state file listing some current source paths as completed (public ResumeState API)
             # paths an interrupted earlier run would have completed: files that are in the destination now
             paths = [p for p in sorted(k for k in state if not k.startswith("\0")) if os.path.isfile(os.path.join(db, p))][:5]
@@ -463,7 +466,7 @@ def run(tier, seed):
             if a != m:
                 diffs.append({"what": "ChecksumDatabase / DirectoryCache API differs from Caches.v", "case": c[:600], "impl": a, "model": m})
         stats["api_cases"] = len(lines)
-        nh = 24 if tier == "quick" else 176
+        nh = 27 if tier == "quick" else 198
         cases, obs = [], []
         for i in range(nh):
             v, h, d, cs, ob = run_history(sc, seed, i, known, stats)
